@@ -1,7 +1,6 @@
 SPECIFICATION Spec
-CONSTANTS MaxTok = 7 MaxDepth = 3
-  Leaves <- LeavesNested
-  RootKinds <- SeqRoot
+CONSTANTS MaxDepth = 3
+  Families <- FamT_C
   StoreByCopy = TRUE
   TailKeepsSets = TRUE
 INVARIANT Emitted
